@@ -21,6 +21,7 @@ open LoomVerif
 #print axioms AtomicWaker.wake_most_recent
 #print axioms Slot.lock_protocol
 #print axioms Waker.refcount_balance
+#print axioms Waker.dropWaker_drops_the_waker_taken
 #print axioms BlockOn.example_slot
 #print axioms BlockOn.example_atomic_waker
 #print axioms BlockOn.example_deadlock
